@@ -18,8 +18,8 @@ from .attach import ROWS, flat_f, fr, near, real_index
 from .core import dec, enc
 from .world import World, all_well_ids, gen_volume, narrow_scalar, shape_volumes, shape_wells, well_id
 
-LABELS = [None, None, "", "step", "fill up", "µL", "wash; no", "last", "first"]
-SAFE_LABELS = [None, None, "", "step", "fill up", "µL", "serial 1:2", "last", "first", "initial"]
+LABELS = [None, None, "", "step", "fill up", "µL", "wash; no", "last", "first", "  padded  ", "tab\t"]
+SAFE_LABELS = [None, None, "", "step", "fill up", "µL", "serial 1:2", "last", "first", "initial", "  padded  ", "tab\t"]
 
 
 # ---------------------------------------------------------------------------------------------
